@@ -66,6 +66,7 @@ def c06(tier):
         mint_h('VHarnessMeltQuoteC06', 'melt quote: real invoice or garbage, optional MPP', must_reach=('melt-quote-accepted', 'melt-quote-refused'), **kw),
         mint_h('VHarnessQueryC06', 'checkstate / restore: 0..2 arbitrary entries; 2+1+2 arbitrary rows', must_reach=('checkstate-ok', 'restore-ok'), **kw),
         mint_h('VHarnessSigAllSwapP2PK', 'melt of a genuine SIG_ALL P2PK input (refused: whole-database comparison), then its swap', summaries=('h2c', 'nut10'), must_reach=('helpers-accepted', 'unsigned-rejected', 'mixed-rejected')),
+        n11_h('VHarnessP2PKTagsTotal', 'ParseP2PKTags on 0..2 tags of 0..3 elements, tag name one of the five known names or another string, every other element an arbitrary string: no panic', panic_mode='obligation', must_reach=('parsed', 'rejected')),
     ]
 def c15(tier):
     return [
@@ -166,7 +167,9 @@ def c08(tier):
             w_h('VHarnessWalletMintThenSend', 'holding one deterministic proof of 8 (stored with DLEQ e,s,r): send 1..5 through a swap', must_reach=('sent',)),
             w_h('VHarnessWalletMelt', 'melt: 1..2 held proofs with/without stored DLEQ data, each payment outcome', must_reach=('melt-outcome-0',))]
 def c17(tier):
-    return [w_h('VHarnessWalletReceive', 'receive a token of the own mint: 1..2 proofs of 2^0..2^3, ppk in {0,100,1000}, stored counter symbolic < 2^30', must_reach=('received', 'receive-failed')),
+    more = [w_h('VHarnessSendC17Fees', 'send: 1..2 held proofs of 2^0..2^3 on the active / inactive keyset with independent fees from {0,100,1000}, amount symbolic, fees included or not: conservation and exact fee payment', must_reach=('sent', 'send-failed'))] if tier == 'thorough' else []
+    return more + [w_h('VHarnessSendC17', 'send: 1..2 held proofs of 2^0..2^2 on the active / inactive keyset, 100 ppk on both, amount symbolic, fees included or not: conservation and exact fee payment', must_reach=('sent', 'send-failed')),
+            w_h('VHarnessWalletReceive', 'receive a token of the own mint: 1..2 proofs of 2^0..2^3, ppk in {0,100,1000}, stored counter symbolic < 2^30', must_reach=('received', 'receive-failed')),
             w_h('VHarnessWalletReclaim', 'reclaim / remove-spent: 1..2 pending proofs of 2^0..2^2, each handed out or locked in a melt, each UNSPENT / SPENT / PENDING at the mint, ppk in {0,1000}', must_reach=('reconciled-0', 'reconciled-1')),
             w_h('VHarnessWalletMelt', 'melt: 1..2 held proofs of 2^0..2^3, amount 1..8, reserve 0..2, ppk in {0,100,1000}, outcome paid/pending/failed, pending then settled either way', must_reach=('melt-outcome-0', 'melt-outcome-1', 'melt-outcome-2', 'melt-resolved')),
             w_h('VHarnessWalletMint', 'mint tokens', must_reach=('minted',)),
@@ -176,6 +179,7 @@ def c20(tier):
     return [mint_h('VHarnessServerSwap', 'POST /v1/swap handler with hand-built JSON: 1 input (genuine or arbitrary), 1 arbitrary output, 1 arbitrary spent row; replay and two near-replays', must_reach=('swap-200', 'swap-refused'), **kw),
             mint_h('VHarnessServerMint', 'POST /v1/mint/bolt11 handler with hand-built JSON: stored quote in any state (or none), arbitrary quote id in the request, 1 arbitrary output, backend invoice lookup settled / unsettled / failing; replay', must_reach=('mint-200', 'mint-refused', 'mint-backend-failure'), **kw),
             mint_h('VHarnessServerFaults', 'each of the 9 quote / mint / swap / melt / checkstate / restore handlers with a well-formed request; a storage error injected at any one storage call of the operation (position symbolic) or a failing invoice lookup; the invoice watcher goroutine started by a mint quote request takes no part', sched=True, go_mode='ignore-all', must_reach=('failure-reported', 'answered-200', 'no-failure'), **kw),
+            mint_h('VHarnessServerCheckstate', 'POST /v1/checkstate with hand-built JSON: 1..2 arbitrary Ys over 1 arbitrary spent row + 1 arbitrary pending row (arbitrary witnesses)', must_reach=('checkstate-200',), **kw),
             mint_h('VHarnessServerKeysCache', 'GET /v1/keys then GET /v1/keys/{id} for an arbitrary id string, twice', must_reach=('known-keyset', 'unknown-keyset'), **kw),
             mint_h('VHarnessServerQuoteStates', 'GET mint / melt quote state for a stored quote in every state', must_reach=('mint-quote-state', 'melt-quote-state'), **kw)]
 def c10(tier):
